@@ -27,14 +27,23 @@ def arrOfFlat (shape : List Nat) (a : Array Int) : Arr Int := { shape := shape, 
 def flatOfFun {α} (shape : List Nat) (f : List Nat → α) : List α := (List.range shape.prod).map fun i => f (unravel shape i)
 def flatOfArr {α} (a : Arr α) : List α := flatOfFun a.shape a.get
 
-/-- {"num":..,"chunks":..,"sizes":[..]} -> reference sizes (null = raises), contract and balance of
-the given (real) sizes -/
+/-- {"num":..,"chunks":..,"sizes":[..]} -> the sizes the model of the real computation gives at `Float`
+(`np.linspace` replayed bit for bit; null = raises), the same definition at `Rat` (= the integer
+formula by `linCut_exact`), the integer formula, and contract and balance of the given (real) sizes and
+of the model's `Float` sizes -/
 def subdivideH (j : Json) : Except String Json := do
   let num ← fldN j "num"
   let chunks ← fldN j "chunks"
   let sizes ← fldNs j "sizes"
   let ref := match subdivideChecked num chunks with | none => Json.null | some l => jNs l
-  pure (Json.mkObj [("ref", ref), ("contract", toJson (contractB sizes num)), ("balanced", toJson (balancedB sizes))])
+  let lin := subdivideLinChecked Float num chunks
+  let linQ := subdivideLinChecked Rat num chunks
+  let jo (o : Option (List Int)) : Json := match o with | none => Json.null | some l => jIs l
+  let linOk := match lin with
+    | none => true
+    | some l => l.all (fun x => decide (0 ≤ x)) && contractB (l.map Int.toNat) num && balancedB (l.map Int.toNat)
+  pure (Json.mkObj [("ref", ref), ("lin", jo lin), ("lin_exact", jo linQ), ("lin_contract_balanced", toJson linOk),
+    ("contract", toJson (contractB sizes num)), ("balanced", toJson (balancedB sizes))])
 
 def kindOf (s : String) : Except String GridKind :=
   match s with
@@ -45,6 +54,7 @@ def outcomeStr : Outcome → String
   | .ok => "ok" | .unknownSize => "unknown-size" | .twoUnknown => "two-unknown"
   | .notEnoughNodes => "not-enough-nodes" | .tooManyChunks => "too-many-chunks"
   | .notImplemented => "not-implemented" | .indexError => "index-error" | .assertionError => "assertion-error"
+  | .nodeCount => "node-count"
 
 /-- {"kind":..,"r0nz":bool,"shape":[..],"dec":[ints],"mpi_size":n} -> outcome of from_grid -/
 def outcomeH (j : Json) : Except String Json := do
@@ -53,9 +63,8 @@ def outcomeH (j : Json) : Except String Json := do
   let shape ← fldNs j "shape"
   let dec ← fldIs j "dec"
   let mpiSize ← fldN j "mpi_size"
-  match parseDecomposition mpiSize shape.length dec with
-  | .error e => pure (Json.mkObj [("outcome", Json.str (outcomeStr e)), ("dec", Json.null)])
-  | .ok d => pure (Json.mkObj [("outcome", Json.str (outcomeStr (fromGridOutcome kind r0nz shape d))), ("dec", jNs d)])
+  let (o, d) := fromGridMpi mpiSize kind r0nz shape dec
+  pure (Json.mkObj [("outcome", Json.str (outcomeStr o)), ("dec", match d with | none => Json.null | some d => jNs d)])
 
 /-- all index bookkeeping of a mesh -/
 def meshH (j : Json) : Except String Json := do
@@ -93,8 +102,9 @@ def boundsH (j : Json) : Except String Json := do
     let sb : List (Rat × Rat) := subBounds bs m.axes (m.id2idx id)
     let shp := m.subShape id
     let coords := (sb.zip shp).map fun (p, n) => (List.range n).map fun c => cellCoord p.1 p.2 n c
+    let edges := (sb.zip shp).map fun (p, n) => (List.range (n + 1)).map fun c => cellEdge p.1 p.2 n c
     Json.mkObj [("bounds", jList (fun (p : Rat × Rat) => Json.arr #[jQ p.1, jQ p.2]) sb),
-                ("coords", jList jQs coords), ("vol", jQ (volCoef kind sb))]
+                ("coords", jList jQs coords), ("edges", jList jQs edges), ("vol", jQ (volCoef kind sb))]
   pure (jList one ids)
 
 /-- {"axes":..,"ghost":bool,"data":[ints] (row-major, base array shape)} -> per node shape and data -/
@@ -124,7 +134,62 @@ def mpibcH (j : Json) : Except String Json := do
   let upper ← fldB j "upper"
   pure (Json.arr #[jN (mpiRead upper n), jN (mpiWrite upper n)])
 
+def jOptF (o : Option Float) : Json := match o with | none => Json.null | some x => jF x
+
+def getAnti (j : Json) (m : Mesh) : Except String (List Bool) :=
+  match fldOpt j "anti" with
+  | some v => getL getB v
+  | none => pure (m.axes.map fun _ => false)
+
+/-- the padded base array (row-major doubles) as an `Arr` -/
+def fullOfFlat (m : Mesh) (a : Array Float) : Arr Float :=
+  { shape := m.arrShape true, get := fun p => a.getD (ravel (m.arrShape true) p) 0.0 }
+
+/-- {"axes":..,"periodic":..,"anti":[bool per axis],"full":[doubles, padded base array]} -> per node the
+padded sub-array after `Mesh.exchange` started from `Mesh.initSub` (null = never written).  Only the
+valid cells of `full` are read. -/
+def exchangeH (j : Json) : Except String Json := do
+  let m ← getMesh j
+  let anti ← getAnti j m
+  let data ← fldFs j "full"
+  if data.length ≠ (m.arrShape true).prod then throw "data length does not match the padded base array shape"
+  let full := fullOfFlat m data.toArray
+  let st := m.exchange anti (m.initSub full)
+  pure (jList (fun id =>
+    let shp := (m.subShape id).map (· + 2)
+    let fl (ax : Nat) (up : Bool) : Json :=
+      match neighbor m ax up id with | none => Json.null | some _ => toJson (mpiFlip m anti ax up id)
+    Json.mkObj [("shape", jNs shp), ("data", jList jOptF (flatOfFun shp (st id))),
+      ("flip", jList (fun ax => Json.arr #[fl ax false, fl ax true]) (List.range m.axes.length))]) (List.range m.len))
+
+/-- {"axes":..,"periodic":..,"anti":..,"full":[doubles: padded base array with the global condition imposed],
+"coef":[1/dx^2 per axis]} -> the Cartesian Laplacian (plus-shaped stencil)
+ * "whole": `applyStencil` at every cell of the whole grid,
+ * "split": `combine` of `applyStencil` on the padded sub-arrays cut out of `full` (the term of
+   `operator_split_combine`),
+ * "exchanged": `combine` of `applyStencilOn` on the sub-arrays built by `initSub`, `exchange`, `setOuter` (the
+   term of `operator_exchange_combine`); null = some read hit a cell that nobody wrote -/
+def stencilH (j : Json) : Except String Json := do
+  let m ← getMesh j
+  let anti ← getAnti j m
+  let data ← fldFs j "full"
+  let coef ← fldFs j "coef"
+  if data.length ≠ (m.arrShape true).prod then throw "data length does not match the padded base array shape"
+  let full := fullOfFlat m data.toArray
+  let r := m.axes.length
+  let S : List Nat → List Float → Float := fun _ v => laplaceOfReads coef v
+  let reads := plusReads r
+  let whole := flatOfFun m.shape fun g => applyStencil S reads full g g
+  let split := flatOfFun m.shape (m.combine false fun id p =>
+    applyStencil S reads (m.extract true full id) (vadd (starts (m.box false id)) p) p)
+  let st := m.setOuter full (m.exchange anti (m.initSub full))
+  let exch := flatOfFun m.shape (m.combine false fun id p =>
+    applyStencilOn S reads (st id) (vadd (starts (m.box false id)) p) p)
+  let flat2 (l : List (Option (Option Float))) : Json := jList (fun o => jOptF o.join) l
+  pure (Json.mkObj [("whole", jList jOptF whole), ("split", flat2 split), ("exchanged", flat2 exch)])
+
 def handlers : List (String × Handler) := [
   ("c17.subdivide", subdivideH), ("c17.outcome", outcomeH), ("c17.mesh", meshH), ("c17.bounds", boundsH),
-  ("c17.extract", extractH), ("c17.combine", combineH), ("c17.mpibc", mpibcH)]
+  ("c17.extract", extractH), ("c17.combine", combineH), ("c17.mpibc", mpibcH),
+  ("c17.exchange", exchangeH), ("c17.stencil", stencilH)]
 end PdeVerif.Drv.C17
